@@ -357,3 +357,60 @@ REPLAYS['sync_fault'] = lambda w, rp: __import__(
     'psim.sync', fromlist=['x']).sync_fault_replay(w, rp)
 REPLAYS['names'] = lambda w, rp: __import__(
     'psim.sync', fromlist=['x']).names_replay(w, rp)
+
+
+# ---------------------------------------------------------------------------
+# allocation candidates: claim (C02) and limit/randomisation (C20)
+# ---------------------------------------------------------------------------
+def _cand(world, seed, params, mode):
+    from psim import cand as K
+    run = K.CandRun(world, seed, mode)
+    findings = run.run()
+    out = {'findings': [], 'requests': run.stats['requests'],
+           'probes': dict(run.stats['probes']), 'signatures': [],
+           'states': [], 'by_kind': {'candidate_queries':
+                                     run.stats['queries']}}
+    if run.stats['queries'] and getattr(run, 'nat', None) is not None:
+        out['states'] = [dump_digest(run.nat)]
+    out['sample'] = run.samples
+    seen = set()
+    for f in findings:
+        f = dict(f)
+        q = f.pop('query')
+        f['sig'] = '%s/%s' % (f['rule'], f['kind'])
+        if f['sig'] in seen:
+            continue
+        seen.add(f['sig'])
+        f['replay'] = {
+            'profile': 'cand_' + mode,
+            'ops': run.ops,
+            'query': q,
+            'expect': {'rule': f['rule'], 'kind': f['kind']},
+        }
+        out['findings'].append(f)
+    return out
+
+
+def dump_digest(nat):
+    from psim import dump
+    return dump.digest(dump.natural_core(nat, generations=False))
+
+
+def cand_claim(world, seed, params):
+    return _cand(world, seed, params, 'claim')
+
+
+def cand_limit(world, seed, params):
+    return _cand(world, seed, params, 'limit')
+
+
+def _cand_replay(world, rp, mode):
+    from psim import cand as K
+    run = K.CandRun(world, 0, mode, ops=rp['ops'], query=rp['query'])
+    return run.run()
+
+
+PROFILES['cand_claim'] = cand_claim
+PROFILES['cand_limit'] = cand_limit
+REPLAYS['cand_claim'] = lambda w, rp: _cand_replay(w, rp, 'claim')
+REPLAYS['cand_limit'] = lambda w, rp: _cand_replay(w, rp, 'limit')
